@@ -100,6 +100,17 @@ def run(out, tier, seed):
         evs = random_history(rng, U3, names4, rng.randint(6, 25 if quick else 45), dataset=fac == "dataset")
         jobs.append({"cfg": dict(S=U3[0], P=U3[1], O=U3[2], names=names4, facade=fac, default_union=(fac == "cg" or i % 2 == 0),
                                  vocab=["plain", "falsy", "hostile", "typed"][i % 4], obs="all" if i % 5 == 0 else "last"), "events": decorate(evs, i)})
+    # property paths as predicates of patterns asked of the dataset itself: nodes that are subjects and objects, edges spread over the graphs
+    I_ = lambda x: {"op": "iri", "iri": x}
+    PATHS = [{"op": "seq", "args": [I_("p1"), I_("p2")]}, {"op": "seq", "args": [I_("p1"), I_("p1")]}, {"op": "alt", "args": [I_("p1"), I_("p2")]}, {"op": "inv", "arg": I_("p1")},
+             {"op": "plus", "arg": I_("p1")}, {"op": "star", "arg": I_("p2")}, {"op": "opt", "arg": I_("p1")}, {"op": "neg", "fwd": ["p1"], "inv": []},
+             {"op": "seq", "args": [{"op": "inv", "arg": I_("p1")}, I_("p2")]}, {"op": "plus", "arg": {"op": "alt", "args": [I_("p1"), I_("p2")]}}]
+    UN = (["n1", "n2", "n3"], ["p1", "p2"], ["n1", "n2", "n3"])
+    for i in range(120 if quick else 1500):
+        fac = ["dataset", "dataset", "cg"][i % 3]
+        evs = random_history(rng, UN, ["D", "g1", "b1"], rng.randint(5, 14), dataset=fac == "dataset")
+        jobs.append({"cfg": dict(S=UN[0], P=UN[1], O=UN[2], names=["D", "g1", "b1"], facade=fac, default_union=(fac == "cg" or i % 2 == 0), vocab="plain", obs="last",
+                                 paths=[PATHS[(i + k) % len(PATHS)] for k in range(4)]), "events": decorate(evs, i)})
     out.conform(__name__, TRACE, jobs, nontrivial=nontrivial, chunk=600)
     # graph views of one dataset under the Graph-level API (a -= on one view must not reach into the other graphs): TraceGraphAlgebra.tla
     from . import g04
